@@ -28,7 +28,8 @@ RULE = ("pairs of samples: integer grids of side 1..5 in 1-3 dimensions (distanc
         "k in {1,2,3,5,8,|D|-1,|D|} and, in 8 % of the pairs, |D|+1 (must be refused); every pair is also built with the samples swapped and three permutation trials are "
         "evaluated. Sequences: NNDVI over 3-8 batches of changing size whose location shifts, k in {1,2,3,5}, sampling_times in "
         "{1,2,5,20,50}, alpha in {0.01,0.05,0.2,0.4,0.7}, np.random.seed(f(case, step)) before each update. Non-trivial: a pair "
-        "that builds with at least two pooled points; a sequence with at least one drift and one non-drift update."
+        "that builds with at least two pooled points; a sequence with at least one drift and one non-drift update. Also (own generator state): pairs and "
+        "sequences with one feature of large magnitude and fine spacing (1.7e9 / 3e8 / 2e10 plus quarters, exact doubles), k below and above half of the pooled points."
         " Also: references handed over as int64 / float32 arrays (values exactly representable) with double batches.")
 SHARD = 60
 
@@ -169,6 +170,12 @@ def grid_rows(rng, n, dim, g, lo=0):
 
 
 def float_rows(rng, n, dim, mode):
+    if mode == "epoch":
+        # one feature of large magnitude and fine spacing (an epoch timestamp in seconds; all values exact doubles): a
+        # neighbour search that expands |x-y|^2 = |x|^2 - 2xy + |y|^2 cancels catastrophically on such data
+        base = rng.choice([1.7e9, 1.7e9, 3.0e8, 2.0e10])
+        col = rng.randrange(dim)
+        return [[(base + rng.randint(0, 480) / 4.0) if c == col else rng.randint(0, 40) / 8.0 for c in range(dim)] for _ in range(n)]
     if mode == "dyadic":
         return [[rng.randint(-32, 32) / 8.0 for _ in range(dim)] for _ in range(n)]
     return [[rng.uniform(-2.0, 2.0) for _ in range(dim)] for _ in range(n)]
@@ -177,9 +184,9 @@ def float_rows(rng, n, dim, mode):
 KS = [1, 2, 3, 5, 8]
 
 
-def gen_pair(ctx, rng):
+def gen_pair(ctx, rng, force_style=None):
     dim = rng.choice([1, 1, 2, 2, 3])
-    style = rng.choice(["grid", "grid", "grid", "dyadic", "float"])
+    style = force_style or rng.choice(["grid", "grid", "grid", "dyadic", "float"])
     n1, n2 = rng.randint(0, 14), rng.randint(1, 14)
     if rng.random() < 0.25:
         n1 = n2
@@ -213,12 +220,13 @@ def gen_pair(ctx, rng):
             "alpha": rng.choice([0.01, 0.05, 0.2, 0.4, 0.7])}
 
 
-def gen_seq(ctx, rng):
+def gen_seq(ctx, rng, force_style=None):
     dim = rng.choice([1, 2])
-    style = rng.choice(["grid", "grid", "float"])
-    k = rng.choice([1, 2, 2, 2, 3, 3, 3, 5, 5])
+    style = force_style or rng.choice(["grid", "grid", "float"])
+    k = rng.choice([1, 2, 2, 2, 3, 3, 3, 5, 5] + ([8, 11] if force_style == "epoch" else []))
     nb = rng.randint(3, 8)
     centre, batches = 0, []
+    base = rng.choice([1.7e9, 3.0e8, 2.0e10])
     for _ in range(nb + 1):
         if rng.random() < 0.45:
             centre += rng.choice([-6, -3, 3, 6, 12])
@@ -226,6 +234,9 @@ def gen_seq(ctx, rng):
             n = rng.randint(max(2, k), 14)
             if style == "grid":
                 rows = grid_rows(rng, n, dim, rng.choice([3, 5, 8]), lo=centre)
+            elif style == "epoch":      # first feature: large magnitude, fine spacing (exact doubles)
+                rows = [[(base + 8 * centre + rng.randint(0, 240) / 4.0) if c == 0 else rng.randint(0, 40) / 8.0
+                         for c in range(dim)] for _ in range(n)]
             else:
                 rows = [[rng.gauss(centre, 1.5) for _ in range(dim)] for _ in range(n)]
             if len(set(tup(rows))) >= k:        # every pooled set then has at least k points
@@ -278,6 +289,14 @@ def gen_cases(ctx):
         cases.append(gen_pair(ctx, rng))
     for _ in range(ctx.scale(120, 1500)):
         cases.append(gen_seq(ctx, rng))
+    # large-magnitude, finely spaced feature (own generator state: the cases above do not depend on this family); with k
+    # below and above half of the pooled points, since library neighbour searches switch algorithm there
+    import random
+    r2 = random.Random(ctx.seed * 1000003 + 77)
+    for _ in range(ctx.scale(80, 1000)):
+        cases.append(gen_pair(ctx, r2, force_style="epoch"))
+    for _ in range(ctx.scale(16, 200)):
+        cases.append(gen_seq(ctx, r2, force_style="epoch"))
     ctx.stats["pairs"] = sum(1 for c in cases if c["kind"] == "pair")
     ctx.stats["sequences"] = sum(1 for c in cases if c["kind"] == "seq")
     global _STATS
